@@ -7,6 +7,8 @@ deductively here is the error-reporting shape and the guards the fixes introduce
   * complete syntactic obligations on _csv2numbers.py: every `raise` in the Converter and the transformers raises RuntimeError (the only
     exception main() turns into a one-line message and exit status 1); main() wraps every Converter call in that handler; the float coercion
     is guarded by math.isfinite; the CSV file is opened with newline=''; next() on the reader has a default;
+  * Converter.save (contract-based, real source, any grid): Table.write is called for every cell with the value at that position, blank cells
+    included, and the document is saved once;
   * cat-numbers' cell_as_string (contract-based, real source): a number cell is exported through the 15-digit rounding of its value, an empty
     cell as '', anything else as str(value) - no cell kind is exported as something else.
 The grid round trip itself: bounded stand-in with Python's csv module as the reference reader/writer.
@@ -18,7 +20,7 @@ import z3
 
 from pyvc.ctx import VerifCtx, Contract
 from pyvc.plan import Plan, BoundedStandIn
-from pyvc.sym import (Int, Str, Bool, PObj, SInt, SStr, SBool, SFloat, FloatS, Unsupported, fresh_name, lift, wrap, ClassRef)
+from pyvc.sym import (Int, Str, Bool, PObj, PList, SInt, SStr, SBool, SFloat, FloatS, Unsupported, fresh_name, lift, wrap, ClassRef)
 from pyvc import extract
 
 
@@ -133,6 +135,93 @@ def build():
     for kind in ("number", "empty", "error", "text"):
         plan.target(Contract("_cat_numbers:cell_as_string", label=kind, entry=cs_entry(kind), ensures=[cs_post(kind)], safety="fork", search=srch,
                              opaque={"sigfig(cell.value, sigfigs=MAX_SIGNIFICANT_DIGITS, warn=False)": lambda ex, env: wrap(SIG(env["cell"].fields["value"].t))}))
+
+
+    # ------------------------------------------------------------------ Converter.save: every cell of the grid is written, at its own position
+    from pyvc.ctx import LoopSpec
+    from pyvc.sym import Custom, as_int_term, is_intlike
+    A = z3.ArraySort
+    RL = z3.Function("row_length", Int, Int)
+    VAL = z3.Function("cell_text", Int, Int, Str)  # the cell at a position (text cells: any string, the empty one included)
+
+    def Tt(v):
+        return as_int_term(v) if is_intlike(v) else lift(v)
+
+    class Rows(Custom):
+        def __init__(self, n):
+            self.n = n
+
+        def length(self, ex):
+            return self.n
+
+        def getitem(self, ex, idx, line):
+            return RowC(Tt(idx))
+
+        def prefixed_by(self, ex, plist):
+            return self  # [header] + data rows: still "some list of rows" (lengths and values are uninterpreted functions of the position)
+
+    class RowC(Custom):
+        def __init__(self, r):
+            self.r = r
+
+        def length(self, ex):
+            return RL(self.r)
+
+        def getitem(self, ex, idx, line):
+            return SStr(VAL(self.r, Tt(idx)))
+
+    def sv_entry(ex):
+        n = z3.Int(fresh_name("n_rows"))
+        rr = z3.Int(fresh_name("rr"))
+        ex.assume(z3.And(n >= 0, z3.ForAll([rr], RL(rr) >= 0)))  # row lengths are lengths
+        holder = PObj("Ghost", {"W": z3.K(Int, z3.K(Int, z3.BoolVal(False)))})
+        table = PObj("TableC", {"g": holder})
+        conv = PObj("Converter", {"no_header": ex.fresh("bool", "no_header"), "output_filename": ex.fresh("str", "out"), "g_rows": Rows(n), "header": PObj("HeaderRow", {})})
+        return {"self": conv, "g": holder, "g_n": SInt(n), "g_table": table, "g_saved": []}
+
+    def m_write(ex, o, a, k, l):
+        h = o.fields["g"]
+        r, c, v = Tt(a[0]), Tt(a[1]), lift(a[2])
+        ex.oblige(f"cell-written-at-its-own-position@L{l}", v == VAL(r, c), "ghost", l)
+        h.fields["W"] = z3.Store(h.fields["W"], r, z3.Store(z3.Select(h.fields["W"], r), c, z3.BoolVal(True)))
+    ctx.method_models = getattr(ctx, "method_models", {})
+    ctx.method_models[("TableC", "write")] = m_write
+    ctx.method_models[("TableC", "set_cell_formatting")] = lambda ex, o, a, k, l: None
+    ctx.method_models[("DocC", "save")] = lambda ex, o, a, k, l: ex.entry_env["g_saved"].append(a[0])
+    ctx.constructors["Document"] = lambda ex, args, kwargs, line: PObj("DocC", {})
+    ctx.extra_globals["Document"] = ClassRef("Document")
+    ctx.extra_globals["datetime"] = ClassRef("datetime")
+
+    def Wat(env, r, c):
+        return z3.Select(z3.Select(env["g"].fields["W"], r), c)
+
+    def W_is(env, rows_done, row_cur=None, cols_done=None):
+        r, c = z3.Int(fresh_name("wr")), z3.Int(fresh_name("wc"))
+        done = z3.And(0 <= r, r < rows_done, 0 <= c, c < RL(r))
+        if row_cur is not None:
+            done = z3.Or(done, z3.And(r == row_cur, 0 <= c, c < cols_done))
+        return z3.ForAll([r, c], Wat(env, r, c) == done)
+
+    def hv_W(ex, env):
+        env["g"].fields["W"] = z3.Const(fresh_name("W_h"), A(Int, A(Int, Bool)))
+
+    def sv_outer(ex, env):
+        i = Tt(env["_i"])
+        return z3.And(i >= 0, i <= env["g_n"].t, W_is(env, i))
+
+    def sv_inner(ex, env):
+        j, row = Tt(env["_j"]), Tt(env["row_num"])
+        return z3.And(j >= 0, j <= RL(row), row >= 0, row < env["g_n"].t, W_is(env, row, row, j))
+
+    def sv_post(ex, env):
+        return z3.And(W_is(env, env["g_n"].t), z3.BoolVal(len(env["g_saved"]) == 1))
+    sv_post.__name__ = ("Table.write(r, c, value) is called for every cell of the grid (header row included) with the value at that position - blank "
+                        "cells too - and for nothing else; then the document is saved once")
+    plan.target(Contract(
+        "_csv2numbers:Converter.save", entry=sv_entry, ensures=[sv_post], safety="fork", search=srch,
+        opaque={"doc.sheets[0].tables[0]": lambda ex, env: ex.entry_env["g_table"],
+                "[row.values() for row in self.data]": lambda ex, env: env["self"].fields["g_rows"]},
+        loops={1: LoopSpec([sv_outer], index="_i", havoc=[hv_W]), 2: LoopSpec([sv_inner], index="_j", havoc=[hv_W])}))
 
     plan.bounded.append(BoundedStandIn(
         "csv-round-trip", "c20_csv.py", [], thorough_args=["--level", "2"], timeout=1500,
